@@ -1,11 +1,13 @@
 use crate::core::Run;
 pub mod c08;
 pub mod c09;
+pub mod c13;
 
 pub fn dispatch(prop: &str, run: &mut Run) {
     match prop {
         "C08" => c08::run(run),
         "C09" => c09::run(run),
+        "C13" => c13::run(run),
         _ => {
             eprintln!("unknown property {}", prop);
             std::process::exit(2);
